@@ -355,4 +355,19 @@ def r3_loud_load(ctx: Context, pl: Plumbing) -> None:
                     ctx.fail("R3.loud", f"{f.qualname.split(':')[1]}:tolerates-missing:{' '.join(src(x).split())[:50]}",
                              f"`{' '.join(src(x).split())[:70]}` on the load path: a missing checkpoint file is tolerated and replaced by a default - exactly the on-disk state of a save interrupted before that file was written "
                              "is then restored silently as a truncated history", f, x)
+    # reader options under which a file cut short parses as valid, smaller data instead of raising
+    pl.load_sources()
+    for e in [e for e in pl.load_reads if e.api == "read_csv"]:
+        c = e.node
+        nm = kwarg(c, "names")
+        if nm is not None and not (isinstance(nm, ast.Constant) and nm.value is None):
+            ctx.fail("R3.loud", "load_calibrator_state:read_csv:names", f"`read_csv(..., names={src(nm)[:40]})`: with the column names declared by the reader a file truncated at open (the state a "
+                     "save interrupted right after opening it leaves) parses as an empty table instead of raising EmptyDataError - restored with the counters of the JSON file and no records", pl.load, c)
+        bad = kwarg(c, "on_bad_lines")
+        if bad is not None and not (isinstance(bad, ast.Constant) and bad.value == "error"):
+            ctx.fail("R3.loud", "load_calibrator_state:read_csv:on_bad_lines", f"`on_bad_lines={src(bad)}` drops the partially written last row of an interrupted save instead of failing", pl.load, c)
+        for k in ("error_bad_lines", "warn_bad_lines"):
+            v_ = kwarg(c, k)
+            if v_ is not None and isinstance(v_, ast.Constant) and v_.value is False and k == "error_bad_lines":
+                ctx.fail("R3.loud", f"load_calibrator_state:read_csv:{k}", f"`{k}=False` drops the partially written last row of an interrupted save instead of failing", pl.load, c)
     ctx.ok("R3.loud", "load-paths:scanned", f"{len(funcs)} load functions scanned, {n_handlers} handler(s) re-raise")
